@@ -38,7 +38,8 @@ def finalize(agg, tier):
                 if not c.get("suite:%s:%d:%s" % (cv, a, m)):
                     out.append("suite/mode never exercised: %s aead=%d %s" % (cv, a, m))
     for n in ("enc_compared", "sealed_compared", "offered_genuine", "offered_corrupted", "offered_replayed", "offered_out_of_order",
-              "recovered_after_rejection", "setup_errors_refused", "mismatched_receivers_rejected", "ephemeral_keys_captured"):
+              "recovered_after_rejection", "setup_errors_refused", "mismatched_receivers_rejected", "ephemeral_keys_captured",
+              "aead_id_given_as:int", "aead_id_given_as:enum"):
         if not c.get(n):
             out.append("deciding counter %s is zero" % n)
     return out
@@ -104,7 +105,10 @@ def make_exchange(ctx, M, HPKE, ECC, cap, rng, curve, aead, mode, info=None, psk
         info = rng.randbytes(_len(rng))
     if psk_pair is None and mode in ("psk", "auth_psk"):
         psk_pair = (rng.randbytes(rng.choice([1, 8, 100])), rng.randbytes(rng.choice([32, 33, 64, 100])))
-    kw = {"receiver_key": rk.public_key(), "aead_id": HPKE.AEAD(aead)}
+    # the suite is named by the enum member or by its documented number (AEAD is an IntEnum: 0x0001 == AEAD.AES128_GCM)
+    as_int = rng.random() < 0.3
+    kw = {"receiver_key": rk.public_key(), "aead_id": int(aead) if as_int else HPKE.AEAD(aead)}
+    ctx.count("aead_id_given_as:" + ("int" if as_int else "enum"))
     if info or rng.random() < 0.5:
         kw["info"] = info
     if psk_pair:
@@ -131,7 +135,7 @@ def make_exchange(ctx, M, HPKE, ECC, cap, rng, curve, aead, mode, info=None, psk
 
 
 def make_receiver(HPKE, ex, **override):
-    kw = {"receiver_key": ex["rk"], "aead_id": HPKE.AEAD(ex["aead"]), "enc": ex["enc"]}
+    kw = {"receiver_key": ex["rk"], "aead_id": HPKE.AEAD(ex["aead"]) if len(ex["enc"]) % 3 else int(ex["aead"]), "enc": ex["enc"]}
     if ex["info"]:
         kw["info"] = ex["info"]
     if ex["psk_pair"]:
@@ -336,6 +340,17 @@ def w_setup_errors(spec, ctx, M):
                 "psk-without-id": dict(receiver_key=rk.public_key(), aead_id=aead, psk=(b"", rng.randbytes(32))),
                 "id-without-psk": dict(receiver_key=rk.public_key(), aead_id=aead, psk=(b"id", b"")),
                 "psk-too-short": dict(receiver_key=rk.public_key(), aead_id=aead, psk=(b"id", rng.randbytes(rng.choice([1, 16, 31])))),
+                # the same PSK mistakes in the authenticated modes and on the receiving side; an explicitly EMPTY pair asks
+                # for a PSK mode without a PSK (RFC 9180 5.1: VerifyPSKInputs)
+                "empty-psk-pair": dict(receiver_key=rk.public_key(), aead_id=aead, psk=(b"", b"")),
+                "empty-psk-pair-auth": dict(receiver_key=rk.public_key(), aead_id=aead, sender_key=sk, psk=(b"", b"")),
+                "psk-without-id-auth": dict(receiver_key=rk.public_key(), aead_id=aead, sender_key=sk, psk=(b"", rng.randbytes(32))),
+                "id-without-psk-auth": dict(receiver_key=rk.public_key(), aead_id=aead, sender_key=sk, psk=(b"id", b"")),
+                "psk-too-short-auth": dict(receiver_key=rk.public_key(), aead_id=aead, sender_key=sk, psk=(b"id", rng.randbytes(rng.choice([1, 16, 31])))),
+                "empty-psk-pair-receiver": dict(receiver_key=rk, aead_id=aead, enc=enc, psk=(b"", b"")),
+                "empty-psk-pair-auth-receiver": dict(receiver_key=rk, aead_id=aead, enc=enc, sender_key=sk.public_key(), psk=(b"", b"")),
+                "psk-too-short-receiver": dict(receiver_key=rk, aead_id=aead, enc=enc, psk=(b"id", rng.randbytes(31))),
+                "psk-too-short-auth-receiver": dict(receiver_key=rk, aead_id=aead, enc=enc, sender_key=sk.public_key(), psk=(b"id", rng.randbytes(31))),
                 "two-private-keys": dict(receiver_key=rk, aead_id=aead, enc=enc, sender_key=sk),
                 "two-public-keys": dict(receiver_key=rk.public_key(), aead_id=aead, sender_key=sk.public_key()),
                 "curve-mismatch": dict(receiver_key=rk.public_key(), aead_id=aead,
